@@ -370,9 +370,38 @@ def model_task(item):
     return {'outcome': oc, 'viol': v, 'n': max(n, 1), 'transitions': n}
 
 
+def disagreement_task(item):
+    """A literal the reference considers invalid: if the compiler accepts it as a default, the generated class must too."""
+    _, t, v, via_alias = item
+    from mc.paramspace import default_model
+    specs = render.render(default_model(t, v, via_alias))
+    out = impl.compile_specs(specs)
+    if out.kind != 'ok':
+        return {'outcome': 'bad-literal-refused-by-compiler', 'viol': []}
+    pkg, fail = impl.build_python_package(out.api)
+    if pkg is None:
+        return {'outcome': 'generation-failed', 'viol': [viol('default-generate:%s' % fail.identity, 'python_types failed: %s' % fail.identity, {'specs': specs}, fail.tb)]}
+    try:
+        try:
+            na = pkg.mod('na')
+            inst = na.S()
+            got = inst.f
+            inst.f = got
+            return {'outcome': 'bad-literal-accepted-by-both', 'viol': []}
+        except pkg.bv.ValidationError as e:
+            return {'outcome': 'compiler-runtime-disagree', 'viol': [viol('default-refused-by-runtime:%s%s:beyond-reference' % (t.kind, '@alias' if via_alias else ''),
+                    'the compiler accepts default %r for %s but the generated class refuses it: %s' % (v, render.texpr(t), e), {'specs': specs}, repr(e))]}
+        except Exception as e:  # noqa
+            return {'outcome': 'default-raised', 'viol': [viol('default-assign-raised:%s:%s' % (t.kind, type(e).__name__), 'default %r for %s: %r' % (v, render.texpr(t), e), {'specs': specs})]}
+    finally:
+        pkg.close()
+
+
 def task(item):
     if item[0] == 'defaults':
         return defaults_task(item)
+    if item[0] == 'disagree':
+        return disagreement_task(item)
     return model_task(item)
 
 
@@ -384,6 +413,14 @@ def run(tier, seed):
         rtbase.universe_failure(r, PROP, e)
         return r.finish('defaults universe could not be built')
     items = [('defaults', lo, min(lo + 40, len(fields))) for lo in range(0, len(fields), 40)]
+    from mc.faults import bad_literals
+    nbad = 0
+    for t in paramspace.valid_param_types('thorough'):
+        for via_alias in (False, True):
+            for v in bad_literals(t):
+                items.append(('disagree', t, v, via_alias))
+                nbad += 1
+    r.bounds['invalid_literals_checked_for_compiler_runtime_agreement'] = nbad
     budget = 1200 if tier == 'quick' else 4000
     seen = set()
     nmodels = 0
